@@ -116,7 +116,10 @@ def eval_num(t, env):
         return float(env['STARTTIME'])
     if k == 'bin':
         a, b = eval_num(t[2], env), eval_num(t[3], env)
-        return {'+': lambda: a + b, '-': lambda: a - b, '*': lambda: a * b, '/': lambda: a / b, '^': lambda: a ** b, 'MOD': lambda: a % b}[t[1]]()
+        r = {'+': lambda: a + b, '-': lambda: a - b, '*': lambda: a * b, '/': lambda: a / b, '^': lambda: a ** b, 'MOD': lambda: a % b}[t[1]]()
+        if isinstance(r, complex):
+            raise ValueError('negative base with a fractional exponent: undefined (python would continue with a complex number, numpy with nan)')
+        return r
     if k == 'neg':
         return -eval_num(t[1], env)
     if k == 'cmp':
@@ -140,6 +143,8 @@ def eval_num(t, env):
         if f == 'ABS':
             return abs(a[0])
         if f == 'SQRT':
+            if a[0] < 0:
+                raise ValueError('square root of a negative number')
             return a[0] ** 0.5
         if f == 'EXP':
             return math.exp(a[0])
